@@ -21,7 +21,7 @@ RULE = ('programs from vlib.writerprog.gen_program; non-trivial = >=2 accepted s
         'property; distinct = (per-session per-segment object kinds/data kinds/lengths, property notes)')
 ASSUMPTIONS = ['Python int lists must come back as an integer dtype holding all values (not a specific one)',
                'empty arrays of dtypes without a TDMS mapping carry no type requirement']
-REQUIRED = ['programs_reusing_objects', 'programs_on_preexisting_empty_file', 'read_back_through_writer_index', 'objects_from_another_file', 'programs', 'segments_accepted', 'channels_compared', 'props_compared', 'prop_types_observed', 'append_sessions', 'path_targets',
+REQUIRED = ['containers:generator', 'containers:tuple', 'programs_reusing_objects', 'programs_on_preexisting_empty_file', 'read_back_through_writer_index', 'objects_from_another_file', 'programs', 'segments_accepted', 'channels_compared', 'props_compared', 'prop_types_observed', 'append_sessions', 'path_targets',
             'names_checked']
 N = {'quick': 8000, 'thorough': 1000000}
 
@@ -84,7 +84,10 @@ def run_case(case, ctx):
         ctx.violation('writer-session-raises/%s' % util.exc_key(ex), {'exc': util.exc_detail(ex), 'program': prog.describe()})
         return
     for si, gi, what in log:
-        ctx.cell('call:' + what)
+        ctx.cell('call:' + what.split(':')[0])
+        if what.startswith('input-array-modified'):
+            ctx.violation('writer-modified-the-callers-array/%s' % what.split(':', 1)[1].split(':')[-1], {'kind': what, 'session': si, 'segment': gi, 'program': prog.describe()})
+    ctx.count('containers:' + prog.container)
     nacc = sum(1 for l in log if l[2] == 'accepted')
     ctx.count('segments_accepted', nacc)
     ctx.sample({'case': case, 'program': prog.describe(), 'log': log, 'bytes': len(data)}, limit=2)
